@@ -312,3 +312,11 @@ impl VAllocators {
         self.0.xxh3_hash()
     }
 }
+
+pub(crate) fn vlayout_of(l: &DatabaseLayout) -> VLayout {
+    vlayout(l)
+}
+
+// H3: snapshots of the ownership bookkeeping and reachability through redb's own walkers
+mod snapshot;
+pub use snapshot::*;
